@@ -137,6 +137,8 @@ class Model(object):
         self.workplaces = []
         self.components = []
         self.byname = {}
+        self.second_workflow = None
+        self.second_project = None
 
 
 def build(spec, plain=False):
@@ -315,6 +317,12 @@ def build(spec, plain=False):
         workflow=wf,
         organization=BaseOrganization(team_list=list(m.teams), workplace_list=list(m.workplaces)),
     )
+    if spec.get("second_workflow"):
+        # the same task objects are afterwards also put into another BaseWorkflow (a partial view of the project with a project object of its own)
+        m.second_workflow = BaseWorkflow([])
+        for ti in spec["second_workflow"]:
+            m.second_workflow.append_child_task(m.tasks[ti])
+        m.second_project = BaseProject(workflow=m.second_workflow, organization=m.project.organization, product=BaseProduct([]))
     return m
 
 
